@@ -61,21 +61,15 @@ namespace RecInt
     // a = b * c mod a.p
     template <size_t K, typename T>
     inline __RECINT_IS_ARITH(T, void) mul(rmint<K, MGI>& a, const rmint<K, MGI>& b, const T& c) {
-        limb ret;
-        ruint<K+1> resmul;
-        lmul(ret, resmul.Low, b.Value, c);
-        resmul.High = ret;
-        reduction(a, resmul);
+        rmint<K, MGI> cr(c);
+        mul(a, b, cr);
     }
 
     // a *= b mod a.p
     template <size_t K, typename T>
     inline __RECINT_IS_ARITH(T, void) mul(rmint<K, MGI>& a, const T& b) {
-        limb ret;
-        ruint<K+1> resmul;
-        lmul(ret, resmul.Low, a.Value, b);
-        resmul.High = ret;
-        reduction(a, resmul);
+        rmint<K, MGI> br(b);
+        mul(a, a, br);
     }
 }
 
